@@ -8,7 +8,7 @@ from .. import tlc
 from ..common import Report, pmap
 from ..e2e import base_scenario, directed
 
-FAMILY = r"^move\.(outcome|alive_in_water|no_resurrection|shape)|^inv\.dead_stay_dead|^files\.dead_stay_dead"
+FAMILY = r"^run\.crashed|^trace\.incomplete|^move\.(outcome|alive_in_water|no_resurrection|shape)|^inv\.dead_stay_dead|^files\.dead_stay_dead"
 FAMILY_T = r"^track\.(alive_in_water|every_step)|^trace\.incomplete|^diff\.horizontal|^run\.crashed|^lattice|^setup\.valid"
 DRIVERS = {"e2e-coast": ("harness.e2e", "run_e2e", "LadimTrace", FAMILY),
            "tracker-window-exhaustive": ("harness.trackdrv", "track_trace", "TrackTrace", FAMILY_T),
